@@ -1,6 +1,7 @@
 (* Model of the DLT writer of /repo/src/dlt/mod.rs: DltStorageHeader::{from_msg, to_write},
-   DltStandardHeader::to_write (recomputes htyp and len, checked u16 additions of a debug build, `as u16`
-   truncation of the payload length), DltExtendedHeader::to_write, DltMessage::to_write; and of what the
+   DltStandardHeader::to_write (recomputes htyp and len; checked u16 additions of a debug build for the header
+   part; io::Error(InvalidInput) before anything of the standard header is written when header + payload do
+   not fit the 16 bit len field), DltExtendedHeader::to_write, DltMessage::to_write; and of what the
    `-o` path of `adlt convert` does with them (one to_write per selected message, in order).
    Model only, no proofs (proofs: Dlt/WriteProofs.v). *)
 From Coq Require Import List NArith Bool.
@@ -30,32 +31,53 @@ Definition is_some {A} (o : option A) : bool := match o with Some _ => true | No
 Definition written_htyp (big_endian has_ecu has_sid has_ts has_ext : bool) : N :=
   32 + 2 * b2n big_endian + 4 * b2n has_ecu + 8 * b2n has_sid + 16 * b2n has_ts + b2n has_ext.
 
+(* outcome of writing into a writer that itself never fails (Vec<u8>, a healthy file):
+   Ok(()) with the bytes appended, or Err(io::Error) with what had been appended before the error *)
+Inductive wres : Type :=
+| WOk (b : bytes)
+| WErr (partial : bytes).
+
 (* DltStandardHeader::to_write(writer, std_hdr, ext_hdr, ecu, session_id, timestamp, payload) *)
 Definition std_to_write (h : std_hdr) (ext : option ext_hdr) (ecu : option char4) (session_id timestamp : option N)
-    (payload : bytes) : res bytes :=
+    (payload : bytes) : res wres :=
   (let htyp' := written_htyp (is_big_endian h) (is_some ecu) (is_some session_id) (is_some timestamp) (is_some ext) in
    l0 <- Ok DLT_MIN_STD_HEADER_SIZE ;;
    l1 <- (if is_some ecu then add_chk u16max l0 4 else Ok l0) ;;
    l2 <- (if is_some session_id then add_chk u16max l1 4 else Ok l1) ;;
    l3 <- (if is_some timestamp then add_chk u16max l2 4 else Ok l2) ;;
    l4 <- (if is_some ext then add_chk u16max l3 DLT_EXT_HEADER_SIZE else Ok l3) ;;
-   l5 <- add_chk u16max l4 (trunc 16 (blen payload)) ;;      (* len += payload.len() as u16 *)
-   Ok ([htyp'; mcnt h] ++ be16_bytes l5
+   (* u16::try_from(len as usize + payload.len()): Err(InvalidInput) when it does not fit; nothing written yet *)
+   let l5 := l4 + blen payload in
+   if u16max <? l5 then Ok (WErr [])
+   else
+   Ok (WOk ([htyp'; mcnt h] ++ be16_bytes l5
        ++ (match ecu with Some e => c4_bytes e | None => [] end)
        ++ (match session_id with Some s => be32_bytes s | None => [] end)
        ++ (match timestamp with Some t => be32_bytes t | None => [] end)
        ++ (match ext with Some e => ext_to_write e | None => [] end)
-       ++ payload))%res.
+       ++ payload)))%res.
 
-(* DltMessage::to_write *)
-Definition msg_to_write (m : msg) : res bytes :=
-  (b <- std_to_write (m_std m) (m_ext m) None None
+(* DltMessage::to_write: the storage header is written first (`storage_header.to_write(writer)?`), so it stays in the
+   writer when the standard header part fails *)
+Definition msg_to_write (m : msg) : res wres :=
+  (r <- std_to_write (m_std m) (m_ext m) None None
          (if has_timestamp (m_std m) then Some (m_timestamp m) else None) (m_payload m) ;;
-   Ok (storage_to_write (storage_from_msg m) ++ b))%res.
+   let sto := storage_to_write (storage_from_msg m) in
+   match r with
+   | WOk b => Ok (WOk (sto ++ b))
+   | WErr p => Ok (WErr (sto ++ p))
+   end)%res.
 
-(* the output thread of `adlt convert -o`: for msg in selected { msg.to_write(file)? } *)
-Fixpoint write_all (ms : list msg) : res bytes :=
+(* the output thread of `adlt convert -o`: for msg in selected { msg.to_write(file)? } -- stops at the first error *)
+Fixpoint write_all (ms : list msg) : res wres :=
   match ms with
-  | [] => Ok []
-  | m :: r => (b <- msg_to_write m ;; bs <- write_all r ;; Ok (b ++ bs))%res
+  | [] => Ok (WOk [])
+  | m :: r =>
+      (w <- msg_to_write m ;;
+       match w with
+       | WErr p => Ok (WErr p)
+       | WOk b =>
+           ws <- write_all r ;;
+           match ws with WOk bs => Ok (WOk (b ++ bs)) | WErr p => Ok (WErr (b ++ p)) end
+       end)%res
   end.
